@@ -292,6 +292,8 @@ class Repo:
             raise AnalysisError(f"anchor vanished: module {name}") from None
 
     def func(self, qual: str) -> FuncInfo:
+        # functions a rule asks for by name are its anchors; the inlined view keeps them as functions
+        self.__dict__.setdefault("requested", set()).add(qual)
         try:
             return self.functions[qual]
         except KeyError:
